@@ -1141,8 +1141,17 @@ func (c *compiler) evalBlockStatement(node *ast.BlockStatement) (interface{}, er
 	return res, nil
 }
 
-func (c *compiler) evalStatement(node ast.Statement) (interface{}, error) {
+func (c *compiler) evalStatement(node ast.Statement) (res interface{}, err error) {
+	// the innermost statement being executed is the one an error is
+	// attributed to; once it has completed, the enclosing statement is
+	// current again
+	outer := c.curStmt
 	c.curStmt = node
+	defer func() {
+		if err == nil {
+			c.curStmt = outer
+		}
+	}()
 
 	switch t := node.(type) {
 	case *ast.ExpressionStatement:
